@@ -4,6 +4,9 @@ CONSTANTS
   Names = {"a", "b"}
   MaxCalls = 3
   Record = FALSE
+  Mode = "fixed"
+  Lag = FALSE
+  Sequential = FALSE
   Sample = 0
 INVARIANTS IdsIncrease IdsUnique ListExact
 PROPERTIES CreateOnlyIfAbsent
